@@ -120,6 +120,48 @@ func authenticated(p scen.Policy, signer string, approvers []string) int {
 	return n
 }
 
+// c11UnverifiedFix recognises one mechanism from the scenario alone: a
+// block-force-push rule matches ref, a force push to ref is revoked, and a later
+// unrevoked entry that the delegation rules do not authorize restores the content
+// of the last unrevoked push before the force push. With the global rule the
+// force push is a violation, recovery takes the later entry as its fix, and the
+// fix entry's own authorization is not verified; without the rule the force push
+// is an ordinary entry and the later entry is verified (and rejected).
+func c11UnverifiedFix(h *scen.History, g []scen.GlobalRule, ref string) bool {
+	bfp := false
+	for _, gr := range g {
+		if gr.Kind == "block-force-push" && globalMatches(gr, ref) {
+			bfp = true
+		}
+	}
+	if !bfp {
+		return false
+	}
+	es := oracle.RefEntries(h, ref)
+	for i, e := range es {
+		if e.Kind != "push" || !e.Skipped || !h.Events[e.Event].Force {
+			continue
+		}
+		lastGood := ""
+		found := false
+		for j := i - 1; j >= 0; j-- {
+			if es[j].Kind == "push" && !es[j].Skipped {
+				lastGood, found = es[j].Content, true
+				break
+			}
+		}
+		if !found {
+			continue
+		}
+		for j := i + 1; j < len(es); j++ {
+			if es[j].Kind == "push" && !es[j].Skipped && !es[j].Valid && es[j].Content == lastGood {
+				return true
+			}
+		}
+	}
+	return false
+}
+
 func runC11(c *fw.Ctx) {
 	n := c.Pick(2400, 60000) / c.NShards
 	gitBudget := c.Pick(2, 30)
@@ -188,7 +230,11 @@ func c11Judge(c *fw.Ctx, h *scen.History, g []scen.GlobalRule, gitBudget *int, f
 			// (i) monotonicity
 			if errG == nil && errP != nil {
 				anyViolation = true
-				c.Violation("global-rule-weakens", map[string]string{"global_matches_ref": fmt.Sprint(matched)},
+				attrs := map[string]string{"global_matches_ref": fmt.Sprint(matched)}
+				if c11UnverifiedFix(hg, g, ref) {
+					attrs["mechanism"] = "revoked-force-push-makes-a-later-unauthorized-entry-the-unverified-fix"
+				}
+				c.Violation("global-rule-weakens", attrs,
 					fmt.Sprintf("%s verifies with global rules %v declared but is rejected (%v) by the delegation rules alone", ref, g, errP), cs)
 				return
 			}
